@@ -42,7 +42,11 @@ func execUnionExprUnion(context *exprContext, expr *grammar.Grammar) error {
 		return fmt.Errorf("cannot union non-NodeSet's")
 	}
 
-	context.result = unionCleanup(append(leftNodeSet, rightNodeSet...))
+	union := make(NodeSet, 0, len(leftNodeSet)+len(rightNodeSet))
+	union = append(union, leftNodeSet...)
+	union = append(union, rightNodeSet...)
+
+	context.result = unionCleanup(union)
 	return nil
 }
 
